@@ -609,6 +609,18 @@ class NodeTr:
         if isinstance(f.value, ast.Name) and f.value.id in env and isinstance(env[f.value.id][1], tuple) \
                 and env[f.value.id][1][0] == "alias":
             return self.alias_call(env[f.value.id], f.attr, e.args, env, binds, e)
+        # self.<dict of containers>[k].<method>(..): the same as through a local that names the entry
+        if isinstance(f.value, ast.Subscript) and self.self_attr(f.value.value) is not None \
+                and (self.self_attr(f.value.value), "alias") in self.sc.get("ops", {}) and not e.keywords:
+            owner = self.self_attr(f.value.value)
+            op = self.sc["ops"][(owner, "alias")]
+            tk, tyk = self.ex(f.value.slice, env, binds)
+            if [tyk] != op.args:
+                self.err("key of self.%s is a %s" % (owner, tyk), e)
+            if (owner, "touch") in self.sc["ops"]:          # defaultdict: reading a missing key creates the entry
+                self.stateful = True
+                self.bind(binds, "wr (%s %s)" % (self.opname(owner, "touch"), tk), True, "u")
+            return self.alias_call(((owner, tk), ("alias", op.ret)), f.attr, e.args, env, binds, e)
         self.err("call %s" % ast.unparse(e), e)
 
     def isinstance_(self, e, env, binds):
